@@ -83,7 +83,10 @@ BOOST_TEXT = st.one_of(
     st.text(st.sampled_from(list("abc def\\'\"#[]<>=|$ ")), min_size=101, max_size=180),
     st.sampled_from(["[[AGENT_ID]]", "<1.0, 2.0, 3.0>", "1234-5678-90", "# not a comment", "[Block]", "x = 1", "=$ evil()", "\\",
                      "ends with backslash\\", "a\\\nb", "'", '"', "'''", "tab\there", "nul\x00mid", " lead", "trail ", "é中\U0001F600",
-                     "a" * 99 + " \\", ("word " * 30).strip()]),
+                     "a" * 99 + " \\", ("word " * 30).strip(),
+                     # text that merely mentions an identifier, number, vector or placeholder somewhere inside
+                     "rezzed by 12345678-1234-1234-1234-123456789abc today", "secondlife:///app/agent/0a1b2c3d-0000-4000-8000-0123456789ab/about",
+                     "12345678-1234-1234-1234-123456789abc", "see <1, 2, 3> and [[SELECTED_LOCAL]] there", "0x10", "1e5", "None", "True", "inf"]),
 )
 
 
